@@ -324,8 +324,10 @@ def dec_asb(data):
     if len(seq) not in (5, 6):
         raise Malformed('security block has %d items' % len(seq))
     targets, ctx, flags, src = seq[0], seq[1], seq[2], seq[3]
-    if not (isinstance(targets, list) and targets and all(isinstance(t, int) and t >= 0 for t in targets)):
+    if not (isinstance(targets, list) and targets and all(type(t) is int and t >= 0 for t in targets)):
         raise Malformed('security targets')
+    if type(ctx) is not int or type(flags) is not int or flags < 0:
+        raise Malformed('security context id / flags')
     params = []
     if flags & 1:
         if len(seq) != 6:
@@ -336,8 +338,19 @@ def dec_asb(data):
         if len(seq) != 5:
             raise Malformed('unexpected parameters')
         results = seq[4]
+    def pairs(seq_):
+        if not isinstance(seq_, list):
+            raise Malformed('security parameters/results are not an array')
+        out = []
+        for item in seq_:
+            if not (isinstance(item, list) and len(item) == 2 and type(item[0]) is int):
+                raise Malformed('security parameter/result is not an [id, value] pair')
+            out.append(tuple(item))
+        return out
+    if not isinstance(results, list):
+        raise Malformed('security results are not an array')
     return dict(targets=targets, context=ctx, flags=flags, source=item_to_eid(src),
-                params=[tuple(p) for p in params], results=[[tuple(r) for r in tr] for tr in results])
+                params=pairs(params), results=[pairs(tr) for tr in results])
 
 
 def enc_asb(asb):
